@@ -32,12 +32,14 @@
 #include <vector>
 #include <functional>
 #include <cstring>
+#include <pthread.h>
 #include "vclock.hpp"
 
 class VSockImpl : public Poco::Net::StreamSocketImpl
 {
 	mutable std::mutex _m;
 	std::condition_variable _cv_data;
+	std::condition_variable _cv_idle;    // signalled when a reader starts waiting and on close
 	std::deque<std::string> _chunks;     // inbound, not yet consumed
 	size_t _front_off = 0;               // consumed prefix of _chunks.front()
 	bool _closed = false;                // shutdown()/close() called by fix8
@@ -72,7 +74,24 @@ public:
 	bool idle() const
 	{
 		std::lock_guard<std::mutex> g(_m);
-		return _readers_waiting > 0 && _chunks.empty();
+		return _readers_waiting > 0 && _chunks.empty() && !_closed && !_peer_closed;
+	}
+	/// block (REAL time, at most `us` microseconds) until idle() may have become true or the socket was
+	/// closed; returns idle().  Uses pthread_cond_timedwait with an absolute CLOCK_REALTIME deadline
+	/// taken from the real clock, so the virtual clock does not interfere.
+	bool wait_idle(unsigned us)
+	{
+		std::unique_lock<std::mutex> lk(_m);
+		if (_readers_waiting > 0 && _chunks.empty() && !_closed && !_peer_closed)
+			return true;
+		int64_t dl(vclock_real_wall_ns() + static_cast<int64_t>(us) * 1000);
+		struct timespec abs;
+		abs.tv_sec = static_cast<time_t>(dl / 1000000000LL);
+		abs.tv_nsec = static_cast<long>(dl % 1000000000LL);
+		pthread_cond_timedwait(_cv_idle.native_handle(), _m.native_handle(), &abs);
+		// after a close (by fix8 or by the simulated peer) the reader is about to see EOF and leave:
+		// not idle, the caller waits until the reader thread has ended
+		return _readers_waiting > 0 && _chunks.empty() && !_closed && !_peer_closed;
 	}
 	bool is_closed() const { std::lock_guard<std::mutex> g(_m); return _closed; }
 	size_t pending_in() const
@@ -117,6 +136,7 @@ public:
 			if (!_blocking)
 				return -1;
 			++_readers_waiting;
+			_cv_idle.notify_all();
 			_cv_data.wait(lk);
 			--_readers_waiting;
 		}
@@ -173,5 +193,6 @@ private:
 		std::lock_guard<std::mutex> g(_m);
 		_closed = true;
 		_cv_data.notify_all();
+		_cv_idle.notify_all();
 	}
 };
